@@ -227,8 +227,9 @@ class ConnRun:
 
     def ev_finish(self, login: bool):
         def fn():
-            if "finish" in self.w.ops or "start" not in self.w.ops or self.w.ops["start"].outcome != "ok":
-                # finish_connection is only defined after a successful start_connection (once)
+            if self._pending("finish") or "start" not in self.w.ops or self.w.ops["start"].outcome != "ok":
+                # finish_connection is only defined after a successful start_connection; a second call (once the first
+                # has ended) must be refused - the object serves one connect attempt
                 return False
             self.spawn("finish", self.w.conn.finish_connection(login=login))
 
@@ -496,6 +497,8 @@ class ConnRun:
         tr = {"cfg": {"noise": self.cfg["noise"], "exp": self.cfg["exp"], "login": self.cfg["login"], "K": self.cfg["K"], "naddr": self.cfg.get("naddr", 1)}, "rows": self.rows}
         errs = list(self.w.codec.format_errors) if self.w.codec else []
         self.unhandled = [repr(c.get("exception")) for c in self.loop.unhandled]
+        if self.loop.harness_errors:
+            raise RuntimeError("harness: exception in the harness's own callback code: " + "; ".join(self.loop.harness_errors[:3]))
         self.loop.after_callback = None
         self.w.close()
         tr["format_errors"] = errs
@@ -568,7 +571,7 @@ def random_schedule(rng: random.Random, cfg: dict, n_events: int, p_fault: float
         return rng.choice(
             [("ev", "force"), ("ev", "disconnect"), ("ev", "eof"), ("ev", "reset"), ("ev", "writefail", True),
              ("ev", "junk", rng.choice(("ProtocolAPIError", "RequiresEncryptionAPIError"))),
-             ("ev", "chunk", [rng.choice(CLOSERS)]), ("ev", "start"), ("tick",),
+             ("ev", "chunk", [rng.choice(CLOSERS)]), ("ev", "start"), ("ev", "finish", cfg["login"]), ("tick",),
              ("ev", "cancel_op", rng.choice(("start", "finish", "disconnect")))]
         )
 
@@ -651,6 +654,9 @@ CLOSERS_SYS = [
     [("ev", "tcp", "okbad")],
     [("ev", "cancel_op", "finish")],
     [("ev", "disconnect"), ("iter", 1), ("ev", "cancel_op", "disconnect")],
+    # no close cause at all: the object is asked to connect a second time (it serves one attempt only)
+    [("ev", "start")],
+    [("ev", "finish", True)],
 ]
 GAPS_SYS = [[], [("iter", 1)], [("idle",)]]
 
